@@ -1,4 +1,7 @@
 pub mod c14;
 pub mod c16;
 pub mod c20;
+pub mod c11;
+pub mod c13;
+pub mod c15;
 mod playback_gen;
